@@ -6,8 +6,8 @@ Import ListNotations.
 Local Open Scope string_scope.
 
 Definition fl_v1 : flags := mkFlags false false false false 0 false false false false 1.
-Definition cf_patch_a : cfaults := mkCF (Some (VPatch, "ConfigMap/a")) None false.
-Definition cf_wait : cfaults := mkCF None None true.
+Definition mf_patch_a : cfaults := mkCF (Some (VPatch, "ConfigMap/a")) None false.
+Definition mf_wait : cfaults := mkCF None None true.
 
 (* the statuses after every step, and whether revision v is recorded deployed after some step *)
 Definition trail (h : list hstep) : list (list (nat * status)) :=
@@ -30,8 +30,8 @@ Definition data_of (key : string) (w : world) : option string :=
 Definition nodep_history : list hstep :=
   [ clean (OpInstall fl0 1 1 [cmr "a" "v1"] []);
     clean (OpUpgrade fl0 2 2 [cmr "a" "v2"] []);
-    faulted (OpRollback fl0) cf_patch_a;
-    faulted (OpUpgrade fl_atomic 4 4 [cmr "a" "v4"] []) cf_wait ].
+    faulted (OpRollback fl0) mf_patch_a;
+    faulted (OpUpgrade fl_atomic 4 4 [cmr "a" "v4"] []) mf_wait ].
 
 Lemma atomic_upgrade_without_deployed :
   trail nodep_history =
@@ -51,9 +51,9 @@ Proof. split; [vm_compute; reflexivity|]. eexists. vm_compute. repeat split. Qed
    deployed revision 5 carries a=v2, not the manifest of revision 1 *)
 Definition k11_history : list hstep :=
   [ clean (OpInstall fl0 1 1 [cmr "a" "v1"] []);
-    faulted (OpUpgrade fl0 2 2 [cmr "a" "v2"] []) cf_wait;
-    faulted (OpRollback fl_v1) cf_patch_a;
-    faulted (OpUpgrade fl_atomic 4 4 [cmr "a" "v4"] []) cf_wait ].
+    faulted (OpUpgrade fl0 2 2 [cmr "a" "v2"] []) mf_wait;
+    faulted (OpRollback fl_v1) mf_patch_a;
+    faulted (OpUpgrade fl_atomic 4 4 [cmr "a" "v4"] []) mf_wait ].
 
 Lemma atomic_restores_never_deployed_refuted :
   exists h w,
